@@ -7,9 +7,20 @@
 (* with its partition, FlushInit, FlushRename, FlushRemoveWal with its     *)
 (* partition). TLC checks that the sequence is a behaviour of Wal.tla:     *)
 (* each event must be the spec action, enabled in the current state, with  *)
-(* the logged arguments; FlushIndex / FlushCommitted are not logged and    *)
-(* are taken as silent steps. All state invariants of Wal.tla that the     *)
-(* pinned code is expected to satisfy are evaluated at every step.         *)
+(* the logged arguments. The series index: every creation of a merge-set   *)
+(* transaction file that adds a part built from in-memory items is logged  *)
+(* as IndexFlush (the recorder sees that rename; it is the durable point   *)
+(* of the synchronous flush in writeSnapshot and of the index's background *)
+(* flusher alike); the event is read optimistically as "every pending item *)
+(* is on disk now" (the background flusher may flush fewer: the reading    *)
+(* can hide a missing synchronous flush right after a partial background   *)
+(* one, it never invents a violation). The step FlushIndex itself is       *)
+(* silent and allowed only when nothing is pending: a flush that goes from *)
+(* the switch to the first data file with a series key still only in       *)
+(* memory is not a behaviour of the specification. FlushCommitted is       *)
+(* silent. A Reset line starts a run and carries its cell -> series map.   *)
+(* All state invariants and action properties of Wal.tla that the pinned   *)
+(* code is expected to satisfy are evaluated at every step.                *)
 (***************************************************************************)
 EXTENDS Wal, Json
 
@@ -29,21 +40,26 @@ TraceReset ==
   /\ keyOf' = [w \in W |-> CHOOSE k \in Keys : TRUE] /\ nw' = 0
   /\ wst' = [w \in W |-> "none"] /\ acked' = <<>>
   /\ nflush' = 0 /\ ncrash' = 0 /\ dpc' = "none" /\ ndrop' = 0 /\ hist' = <<>>
+  /\ fkind' = "none" /\ idxMem' = {} /\ idxDisk' = {} /\ wat' = <<"idle", "none">> /\ pendF' = "none"
+  /\ serOf' = [k \in Keys |-> Trace[l].ser[k]]
 
 TraceWriteMem == IsEvent("WriteMem") /\ WriteMem(Trace[l].k)
 TraceWriteWal == IsEvent("WriteWal") /\ \E w \in W : WriteWal(w) /\ (writeReq % N) + 1 = Trace[l].p
 TraceAck      == IsEvent("Ack") /\ \E w \in W : Ack(w)
-TraceSwitch   == IsEvent("FlushSwitch") /\ FlushSwitch
+TraceSwitch   == IsEvent("FlushSwitch") /\ FlushSwitch(Trace[l].kind)
+TraceIndexFlush == IsEvent("IndexFlush") /\ mode = "run" /\ IndexToDisk(idxMem)
+                   /\ UNCHANGED <<wal, nfile, writeReq, mem, snap, pend, files, inits, fpc, mode, rpc, keyOf, nw, wst, acked,
+                                  nflush, ncrash, dpc, ndrop, hist, fkind, serOf, wat, pendF>>
 TraceInit     == IsEvent("FlushInit") /\ FlushInit
 TraceRename   == IsEvent("FlushRename") /\ FlushRename
 TraceRemove   == IsEvent("FlushRemoveWal") /\ FlushRemoveWal
                    /\ \E f \in pend : f \notin pend' /\ \E i \in 1..Len(wal[Trace[l].p]) : wal[Trace[l].p][i].id = f
 TraceEnd      == IsEvent("FlushEnd") /\ FlushEnd
 
-Silent == (FlushIndex \/ FlushCommitted) /\ UNCHANGED l
+Silent == ((idxMem = {} /\ FlushIndex) \/ FlushCommitted) /\ UNCHANGED l
 
 TraceNext == TraceReset \/ TraceWriteMem \/ TraceWriteWal \/ TraceAck \/ TraceSwitch \/ TraceInit
-             \/ TraceRename \/ TraceRemove \/ TraceEnd \/ Silent
+             \/ TraceRename \/ TraceRemove \/ TraceEnd \/ TraceIndexFlush \/ Silent
 
 TraceInit0 == Init /\ l = 1 /\ TLCSet(1, 1)
 TraceSpec == TraceInit0 /\ [][TraceNext]_tvars
